@@ -25,6 +25,7 @@ var families = map[string]func(r *rand.Rand, i int) *Program{
 	"persist":   genPersist,
 	"crash":     genCrash,
 	"slowack":   genSlowAck,
+	"ackq":      genAckQ,
 	"dist":      genDist,
 	"lenrace":   genLenRace,
 	"burst":     genBurst,
@@ -267,6 +268,27 @@ func genSlowAck(r *rand.Rand, i int) *Program {
 	p.Threads = [][]Op{t}
 	if r.Intn(3) == 0 {
 		p.Threads = append(p.Threads, []Op{{Op: "tune", N: 1 + r.Intn(3)}})
+	}
+	return p
+}
+
+// ackq: the programs of the cancel / status / basic / outcomes families on a custom in-memory queue bound with WithQueue that
+// also acknowledges (IQueue + IAcknowledgeable): the producer's handle and the job the worker runs are the same object, it
+// carries an acknowledgement ID, and its owner may Close it at any moment — also right when the worker closes it.
+func genAckQ(r *rand.Rand, i int) *Program {
+	var p *Program
+	switch r.Intn(4) {
+	case 0:
+		p = genCancel(r, i)
+	case 1:
+		p = genStatus(r, i)
+	case 2:
+		p = genOutcomes(r, i)
+	default:
+		p = genBasic(r, i)
+	}
+	for q := range p.Queues {
+		p.Queues[q] = "ackq"
 	}
 	return p
 }
